@@ -129,6 +129,82 @@ theorem segRead_prefix (pre d tail : Bytes) (m : Nat) (st : Bool) :
         obtain ⟨h1, _⟩ := drop_take_len _ m pre.length d.length hl hn
         rw [h1, List.append_assoc, List.drop_left]; simp
 
+/-- the multi-segment loop on a prefix source: never more than requested, and if nothing is missing
+    then every segment came back complete — equal to the same bytes of the whole file and inside the
+    prefix -/
+theorem readSegsLoop_prefix (file : Bytes) (m : Nat) (st : Bool) :
+    ∀ (segs : List (Nat × Nat)) (b : Bytes), readSegsLoop ⟨file.take m, st⟩ segs = .ok b →
+      b.length ≤ segsTotal segs ∧
+      (b.length = segsTotal segs → b = sliceBytes file segs ∧ ∀ sg ∈ segs, 0 < sg.2 → sg.1 + sg.2 ≤ m) := by
+  intro segs
+  induction segs with
+  | nil =>
+    intro b h
+    simp only [readSegsLoop] at h
+    cases h
+    simp [segsTotal, sliceBytes]
+  | cons sg r ih =>
+    intro b h
+    obtain ⟨o, l⟩ := sg
+    simp only [readSegsLoop] at h
+    split at h
+    · cases h
+    · rename_i b1 hb1
+      split at h
+      · cases h
+      · rename_i bs hbs
+        cases h
+        have hb1' := read_ok hb1
+        have hl1 : b1.length ≤ l := by rw [hb1']; simp only [List.length_take]; omega
+        obtain ⟨ih1, ih2⟩ := ih bs hbs
+        have htot : segsTotal ((o, l) :: r) = l + segsTotal r := by simp [segsTotal]
+        rw [htot, List.length_append]
+        refine ⟨by omega, fun heq => ?_⟩
+        have h1 : b1.length = l := by omega
+        have h2 : bs.length = segsTotal r := by omega
+        obtain ⟨e2, r2⟩ := ih2 h2
+        have hs : sliceBytes file ((o, l) :: r) = (file.drop o).take l ++ sliceBytes file r := by
+          simp [sliceBytes]
+        by_cases hl0 : l = 0
+        · subst hl0
+          have : b1 = [] := List.eq_nil_of_length_eq_zero h1
+          rw [hs, this, e2]
+          refine ⟨by simp, ?_⟩
+          intro sg hsg hpos
+          simp only [List.mem_cons] at hsg
+          rcases hsg with h | h
+          · subst h; simp at hpos
+          · exact r2 sg h hpos
+        · have hpos : 0 < l := by omega
+          rw [hb1'] at h1
+          obtain ⟨e1, r1⟩ := drop_take_len file m o l h1 hpos
+          rw [hs, hb1', e1, e2]
+          refine ⟨rfl, ?_⟩
+          intro sg hsg hp
+          simp only [List.mem_cons] at hsg
+          rcases hsg with h | h
+          · subst h; exact r1
+          · exact r2 sg h hp
+
+/-- **`read_segments` on a prefix**: raises, or returns exactly the bytes the complete file holds at
+    the segments — and then every non-empty segment, the LAST one included, lies inside the prefix -/
+theorem readSegments_prefix (file : Bytes) (m : Nat) (st : Bool) (segs : List (Nat × Nat)) :
+    let r := readSegments ⟨file.take m, st⟩ segs (segsTotal segs)
+    (r = .ok (sliceBytes file segs) ∨ ∃ e, r = .error e) ∧
+    (r = .ok (sliceBytes file segs) → ∀ sg ∈ segs, 0 < sg.2 → sg.1 + sg.2 ≤ m) := by
+  intro r
+  simp only [r, readSegments]
+  split
+  · exact ⟨Or.inr ⟨_, rfl⟩, fun h => by cases h⟩
+  · rename_i b hb
+    obtain ⟨_, h2⟩ := readSegsLoop_prefix file m st segs b hb
+    split
+    · exact ⟨Or.inr ⟨_, rfl⟩, fun h => by cases h⟩
+    · rename_i hl
+      simp only [ne_eq, Decidable.not_not] at hl
+      obtain ⟨e, rr⟩ := h2 hl
+      exact ⟨Or.inl (by rw [e]), fun _ => rr⟩
+
 /-- fields returned by a successful header phase on any prefix of a file starting with the header block -/
 theorem header_fields (fmt : VolFmt) (img : Img) (vo : Nat) (rest : Bytes) (single : Bool) (m : Nat)
     (st : Bool) (n off : Nat) (hH : fmt.hdrSize = 16 + img.fill.length) (hd : img.data.length < 2 ^ 64)
